@@ -185,10 +185,10 @@ SANFLAGS = "-std=c++17 -O1 -g -DNDEBUG -march=native -fopenmp -fno-access-contro
 def repo_hash():
     return tree_hash([os.path.join(REPO, "include"), os.path.join(REPO, "c-interface")])
 
-def build_harness(targets, san=False):
+def build_harness(targets, san=False, flags=None):
     """targets: list of (exe_name, source, extra_flags). Returns dict exe_name -> path (None if build failed), log"""
     with Lock("harness"):
-        hv = tree_hash([os.path.join(ROOT, "harness")], repo_hash() + ("san" if san else ""))
+        hv = tree_hash([os.path.join(ROOT, "harness")], repo_hash() + ("san" if san else "") + (flags or ""))
         d = os.path.join(BUILD, ("hsan-" if san else "h-") + hv)
         os.makedirs(d, exist_ok=True)
         procs, out, log = [], {}, ""
@@ -197,7 +197,7 @@ def build_harness(targets, san=False):
             out[name] = exe
             if os.path.exists(exe): continue
             cmd = "g++ %s %s -I%s/include -I%s/c-interface -I%s/harness %s -o %s.tmp && mv %s.tmp %s" % (
-                SANFLAGS if san else CXXFLAGS, extra, REPO, REPO, ROOT, os.path.join(ROOT, "harness", src), exe, exe, exe)
+                flags or (SANFLAGS if san else CXXFLAGS), extra, REPO, REPO, ROOT, os.path.join(ROOT, "harness", src), exe, exe, exe)
             procs.append((name, subprocess.Popen(cmd, shell=True, stdout=subprocess.PIPE, stderr=subprocess.STDOUT, text=True)))
         for name, p in procs:
             o, _ = p.communicate(timeout=1800)
@@ -240,7 +240,11 @@ def run_component(comp, cases, workdir, tag, exes, driver, env_flags, timeout=30
             except subprocess.TimeoutExpired:
                 p.kill(); o = "timeout"
             if p.returncode != 0:
-                crashed.append((os.path.basename(exe), p.returncode, (o or "")[-1500:]))
+                last = None
+                if os.path.exists(of):
+                    for l in open(of, errors="replace"):
+                        if l.startswith("C "): last = l[2:].strip()
+                crashed.append((os.path.basename(exe), p.returncode, (o or "")[-1500:], last))
             if os.path.exists(of): w.write(open(of, errors="replace").read())
     mf, jf = os.path.join(workdir, tag + ".model"), os.path.join(workdir, tag + ".judge")
     r = sh([driver, comp, cf, impl_all, mf, jf, env_flags.get("conv", "avx512")], timeout=timeout)
